@@ -58,6 +58,23 @@ def check_case(ctx, case):
             ctx.fail("{} on {!r} read as a linear fragment answers {} — and {} while a wrapper of the same class around the "
                      "circular plasmid of the same name is alive".format(cls.__name__, wd, lin0, lin1), case)
         del twin
+    if prior is not None:
+        # a wrapper built around a record and first asked after that record's sequence was replaced (a corrected read):
+        # it answers about the record as it is now
+        rec_l = impl.mk_record(impl.CRec(0, gen.rot(wd, 1 + case["prior"] % (n - 1))[::-1], [], []))
+        late = cls(rec_l)
+        rec_l.seq = impl.Seq(wd)
+        try:
+            v_late = bool(late.is_valid())
+        except Exception as e:  # noqa
+            v_late = "exc:" + type(e).__name__
+        try:
+            v_now = bool(cls(impl.mk_record(impl.CRec(0, wd, [], []))).is_valid())
+        except Exception as e:  # noqa
+            v_now = "exc:" + type(e).__name__
+        if v_late != v_now:
+            ctx.fail("{}: a wrapper built before the record's sequence was replaced by {!r} answers {} where a wrapper built "
+                     "afterwards answers {}".format(cls.__name__, wd, v_late, v_now), case)
     res = T.evaluate(cls, wd)
     del prior
     ctx.note("verdict:" + res[0])
